@@ -428,6 +428,9 @@ def _hod_inputs(case):
 
     rng = np.random.default_rng(case['seed'])
     halo, part = hodref.gen_tables(rng, case['H'], case['P'], lbox=2000.0, with_env=True)
+    if case.get('zero_weights') and len(part['pweights']) > 2:
+        part['pweights'][::3] = 0.0  # weight / multiplicity 0: a host that can never be selected
+        halo['hmultis'][::4] = 0.0
     tracers = hodref.gen_tracers(rng, case.get('tracers', ('LRG', 'ELG', 'QSO')))
     params = dict(z=0.5, velz2kms=100.0, Lbox=2000.0, origin=(np.array([-990.0, -990.0, -990.0]) if case.get('origin') else None), Mpart=2.1e9, chunk=-1)
     return halo, part, tracers, params
